@@ -57,16 +57,19 @@ func (dem *DepthExecutorManager) Execute() (map[string]interface{}, error) {
 	errs := gqlerrors.ErrorList{}
 
 	// for initial step construct root queries
-	for _, step := range dem.depthExecutors[0].QueryPlanSteps {
-		insertionPoint := []string{}
-		if step.InsertionPoint != nil {
-			insertionPoint = step.InsertionPoint
-		}
+	// (a plan may have no step at all: a subscription event with nothing to fetch for)
+	if root, ok := dem.depthExecutors[0]; ok {
+		for _, step := range root.QueryPlanSteps {
+			insertionPoint := []string{}
+			if step.InsertionPoint != nil {
+				insertionPoint = step.InsertionPoint
+			}
 
-		executionRequests = append(executionRequests, &ExecutionRequest{
-			QueryPlanStep:  step,
-			InsertionPoint: insertionPoint,
-		})
+			executionRequests = append(executionRequests, &ExecutionRequest{
+				QueryPlanStep:  step,
+				InsertionPoint: insertionPoint,
+			})
+		}
 	}
 
 	for depth := 0; depth <= dem.maxDepth; depth++ {
